@@ -67,38 +67,10 @@ CLOSE_CODES = [1000, 1001, 1002, 1003, 1007, 1008, 1009, 1010, 1011, 1012, 1013,
 
 
 # ------------------------------------------------------------------------------------------------
-# which sends are compressed / shared, and where a per-message override breaks the pairing
+# which sends are compressed; the one override family that still breaks the round trip (nothing negotiated)
 
 def is_compressed(cfg, op):
     return op[0] == "S" and op[1] < 8 and bool(op[2] or cfg["compress"])
-
-
-def poison_index(cfg, ops, tags=None):
-    """Index of the first shared-context compressed send issued after an override message advanced only the peer's
-    window (takeover, shared compressor already has history).  None if there is none.  `tags`: outcome of each
-    operation (refused ones never reached a compressor)."""
-    if not cfg["compress"] or cfg["notakeover"]:
-        return None
-    used = poisoned = False
-    for i, op in enumerate(ops):
-        if not is_compressed(cfg, op) or (tags is not None and i < len(tags) and tags[i] == "R"):
-            continue
-        if op[2]:
-            poisoned = poisoned or used
-        else:
-            if poisoned:
-                return i
-            used = True
-    return None
-
-
-def _sig_override_desync(case, params):
-    if case.get("kind") != "roundtrip":
-        return False
-    k = poison_index(case["cfg"], case["ops"], case.get("tags"))
-    fb = case.get("first_bad_op")
-    return (k is not None and fb is not None and fb >= k and is_compressed(case["cfg"], case["ops"][fb])
-            and not case["ops"][fb][2])
 
 
 def _sig_override_unnegotiated(case, params):
@@ -108,7 +80,7 @@ def _sig_override_unnegotiated(case, params):
     return fb is not None and case["ops"][fb][0] == "S" and bool(case["ops"][fb][2]) and case.get("status") == "X:1002"
 
 
-SIGNATURES = {"override_desync": _sig_override_desync, "override_unnegotiated": _sig_override_unnegotiated}
+SIGNATURES = {"override_unnegotiated": _sig_override_unnegotiated}
 
 
 def build_model():
@@ -841,8 +813,7 @@ def check_case(ctx, loop, case, mline, suite):
         acc = [i for i, t in enumerate(r["tags"]) if t != "R"]
         pyv = "".join("1" if op_wf(case["rc"], op) else "0" for op in case["ops"])
         pyf = "1" if all(fits(case["rc"], case["ops"][i], wl) for i, wl in zip(acc, r["wlens"])) else "0"
-        pyo = "1" if (poison_index(case["cfg"], case["ops"]) is None
-                      and not (not case["cfg"]["compress"] and any(is_compressed(case["cfg"], o) for o in case["ops"]))) else "0"
+        pyo = "0" if (not case["cfg"]["compress"] and any(is_compressed(case["cfg"], o) for o in case["ops"])) else "1"
         if m.get("V") != pyv or (m.get("T") == r["tags"] and m.get("F") != pyf) or m.get("O") != pyo:
             ctx.disagreement(suite + ":validity", _small(case), {"V": m.get("V"), "F": m.get("F"), "O": m.get("O")},
                              {"V": pyv, "F": pyf, "O": pyo})
